@@ -928,6 +928,9 @@ func (c *Cursor) search1(ctx context.Context, key interface{}) error {
 // Ceil moves the cursor to the entry with the given key, or if not present,
 // the entry with the next-larger key.
 func (c *Cursor) Ceil(ctx context.Context, key interface{}) error {
+	if len(c.path) == 0 {
+		return nil
+	}
 	for {
 		err := c.search1(ctx, key)
 		if err != nil {
